@@ -142,6 +142,80 @@ impl<'a> Visitor for Enumerate<'a> {
     }
 }
 
+fn run_call<F: Flt, D: Subject<F>>(op: Op, x: f64) -> Result<Vec<u64>, String> {
+    let d = Dims::NONE;
+    let l = D::layout(d);
+    let p = few_assignments::<F>(&l, F::from64(x).to64(), 1, 0).remove(0);
+    let a = D::build(d, &p);
+    guarded(|| exec_generic::<F, D>(op, &[a]).parts(d).bits())
+}
+
+/// History independence (sequences of two calls): the result of a call must not depend on the call
+/// made before it on the same thread - another float width, another base / exponent of the same
+/// function, another argument.  For every function family and every ordered pair (c1, c2) of calls
+/// from {f32, f64} x {parameter variants} x {2 points}, c2 is evaluated right after c1; all results
+/// for the same c2 must be identical bit for bit (differential oracle, no reference values).
+fn history_independence(st: &mut Stats) -> (usize, usize) {
+    use num_dual::{Dual3_32, Dual3_64};
+    let mut fams: Vec<(std::mem::Discriminant<Op>, Vec<(Op, f64)>)> = Vec::new();
+    let mut all = jobs_base();
+    for (op, x) in [(Op::Powf(2.5), 0.75), (Op::Powf(0.5), 0.75), (Op::Powf(2.5), 2.0), (Op::Powi(3), 0.75), (Op::Powi(-2), 0.75), (Op::Powi(3), -2.5)] {
+        all.push((op, vec![vec![x]]));
+    }
+    for (op, pts) in all {
+        if op.arity() != 1 {
+            continue;
+        }
+        let k = std::mem::discriminant(&op);
+        if !fams.iter().any(|(d, _)| *d == k) {
+            fams.push((k, Vec::new()));
+        }
+        let f = fams.iter_mut().find(|(d, _)| *d == k).unwrap();
+        for p in pts.iter().take(2) {
+            f.1.push((op, p[0]));
+        }
+    }
+    let eval = |wide: bool, op: Op, x: f64| if wide { run_call::<f64, Dual3_64>(op, x) } else { run_call::<f32, Dual3_32>(op, x) };
+    let (mut pairs, mut calls) = (0usize, 0usize);
+    for (_, cs) in &fams {
+        let mut alphabet: Vec<(bool, Op, f64)> = Vec::new();
+        for &(op, x) in cs {
+            alphabet.push((true, op, x));
+            alphabet.push((false, op, x));
+        }
+        calls += alphabet.len();
+        for &(w2, op2, x2) in &alphabet {
+            let mut first: Option<(Vec<u64>, (bool, Op, f64))> = None;
+            for &(w1, op1, x1) in &alphabet {
+                let _ = eval(w1, op1, x1);
+                let r = match eval(w2, op2, x2) {
+                    Ok(r) => r,
+                    Err(_) => continue,
+                };
+                pairs += 1;
+                st.evaluations += 2;
+                st.transitions += 2;
+                st.state(hash64(&("history", format!("{op1:?}{op2:?}"), w1, w2, x1.to_bits(), x2.to_bits())));
+                match &first {
+                    None => first = Some((r, (w1, op1, x1))),
+                    Some((r0, c0)) => {
+                        if *r0 != r {
+                            let wn = |w: bool| if w { "f64" } else { "f32" };
+                            st.violation(Violation {
+                                sig: format!("history {} Dual3<{}>", op2.name(), wn(w2)),
+                                case: json!({"call": {"op": op_to_json(op2), "float": wn(w2), "x": x2}, "after_a": {"op": op_to_json(c0.1), "float": wn(c0.0), "x": c0.2}, "after_b": {"op": op_to_json(op1), "float": wn(w1), "x": x1}}),
+                                what: format!("{}({x2}) on Dual3<{}> gives different bits after {}({}) on {} than after {}({x1}) on {}: the result depends on the previous call", op2.name(), wn(w2), c0.1.name(), c0.2, wn(c0.0), op1.name(), wn(w1)),
+                            });
+                            break;
+                        }
+                    }
+                }
+            }
+        }
+    }
+    (calls, pairs)
+}
+
 fn main() {
     quiet_panics();
     let cli = cli();
@@ -155,19 +229,20 @@ fn main() {
     whole_universe(tier, &mut e);
     let axes = std::mem::take(&mut e.axes);
     let reduced = e.reduced;
+    let (hist_calls, hist_pairs) = history_independence(&mut stats);
     let kap: Vec<Value> = jobs(53).iter().map(|(op, _)| json!({"op": op.name(), "kappa": kappa(*op)})).collect();
     let rep = Report {
         property: PROP,
         mode: cli.mode,
         seed: cli.seed,
         start,
-        rule: "every interface function x every type of the universe (f32 and f64, static, dynamic, nested) x every point of the function's domain grid x every presence pattern x the full tensor grid of derivative-part values (degree+1 values per part incl. 0, pairwise distinct non-parallel directions); non-trivial = an operand part is neither 0 nor 1 and the result has a non-zero derivative part; distinct by (type, op, operand bits, presence)".into(),
+        rule: "every interface function x every type of the universe (f32 and f64, static, dynamic, nested) x every point of the function's domain grid x every presence pattern x the full tensor grid of derivative-part values (degree+1 values per part incl. 0, pairwise distinct non-parallel directions); non-trivial = an operand part is neither 0 nor 1 and the result has a non-zero derivative part; distinct by (type, op, operand bits, presence); plus history independence: for every function family every ordered pair of calls from {f32, f64} x parameter variants x 2 points, the second call's bits must not depend on the first".into(),
         assumptions: vec![
             "reference: refmodel double-double algebra, audited against mpmath (audit/audit.py)".into(),
             "tolerance per part: kappa_op * u * sum of |Taylor coefficient| * |operand parts| products (DESIGN 2.5); composite functions (tan, tanh, sph_j*) additionally get the propagated bound of their defining expression".into(),
             "real parts are grid points with a fixed margin from singularities, not all floats".into(),
         ],
-        extra: json!({"axes": axes, "sweeps_with_reduced_grid": reduced, "kappa": kap, "oracle": "reference algebra over double-double, ODE-generated Taylor coefficients"}),
+        extra: json!({"axes": axes, "sweeps_with_reduced_grid": reduced, "history_calls": hist_calls, "history_pairs": hist_pairs, "kappa": kap, "oracle": "reference algebra over double-double, ODE-generated Taylor coefficients"}),
         exhaustive: true,
         caps: vec![],
     };
